@@ -854,6 +854,12 @@ static Type *enum_specifier(Token **rest, Token *tok) {
 }
 
 // typeof-specifier = "(" (expr | typename) ")"
+// Positive while an expression that is not evaluated is being parsed:
+// the operand of sizeof, _Alignof or typeof, or a part of a generic
+// selection that is not its result. Naming a function there does not
+// use the function.
+static int unevaluated;
+
 static Type *typeof_specifier(Token **rest, Token *tok) {
   tok = skip(tok, "(");
 
@@ -861,7 +867,9 @@ static Type *typeof_specifier(Token **rest, Token *tok) {
   if (is_typename(tok)) {
     ty = typename(&tok, tok);
   } else {
+    unevaluated++;
     Node *node = expr(&tok, tok);
+    unevaluated--;
     add_type(node);
     ty = node->ty;
   }
@@ -3508,6 +3516,9 @@ static Node *generic_selection(Token **rest, Token *tok) {
   Token *start = tok;
   tok = skip(tok, "(");
 
+  // Only the result expression is evaluated. Which one that is is
+  // known at the end, so it is parsed once more then.
+  unevaluated++;
   Node *ctrl = assign(&tok, tok);
   add_type(ctrl);
 
@@ -3517,30 +3528,33 @@ static Node *generic_selection(Token **rest, Token *tok) {
   else if (t1->kind == TY_ARRAY)
     t1 = pointer_to(t1->base);
 
-  Node *ret = NULL;
+  Token *ret = NULL;
+  Token *dflt = NULL;
 
   while (!consume(rest, tok, ")")) {
     tok = skip(tok, ",");
 
     if (equal(tok, "default")) {
       tok = skip(tok->next, ":");
-      Node *node = assign(&tok, tok);
-      if (!ret)
-        ret = node;
+      dflt = tok;
+      assign(&tok, tok);
       continue;
     }
 
     Type *t2 = typename(&tok, tok);
     tok = skip(tok, ":");
-    Node *node = assign(&tok, tok);
     if (is_compatible(t1, t2))
-      ret = node;
+      ret = tok;
+    assign(&tok, tok);
   }
+  unevaluated--;
 
+  if (!ret)
+    ret = dflt;
   if (!ret)
     error_tok(start, "controlling expression type not compatible with"
               " any generic association type");
-  return ret;
+  return assign(&tok, ret);
 }
 
 // primary = "(" "{" stmt+ "}" ")"
@@ -3592,7 +3606,9 @@ static Node *primary(Token **rest, Token *tok) {
   }
 
   if (equal(tok, "sizeof")) {
+    unevaluated++;
     Node *node = unary(rest, tok->next);
+    unevaluated--;
     add_type(node);
     if (node->ty->kind == TY_VLA)
       return new_var_node(node->ty->vla_size, tok);
@@ -3610,7 +3626,9 @@ static Node *primary(Token **rest, Token *tok) {
   }
 
   if (equal(tok, "_Alignof")) {
+    unevaluated++;
     Node *node = unary(rest, tok->next);
+    unevaluated--;
     add_type(node);
     Type *ty = node->ty;
     while (ty->kind == TY_VLA)
@@ -3670,7 +3688,7 @@ static Node *primary(Token **rest, Token *tok) {
     *rest = tok->next;
 
     // For "static inline" function
-    if (sc && sc->var && sc->var->is_function) {
+    if (sc && sc->var && sc->var->is_function && !unevaluated) {
       if (current_fn)
         strarray_push(&current_fn->refs, sc->var->name);
       else
